@@ -243,3 +243,33 @@ Proof.
   rewrite (stamp_after_forwarded_l _ _ _ _ H), instant_pb_new.
   rewrite (zmax_list_largest _ _ _ Hin Hle Hz). reflexivity.
 Qed.
+
+(* ---------- full statements used by Props/C11.v ---------- *)
+Lemma wm_monotone_full : forall late ops,
+  StronglySorted Z.le (map instant (wm_trace (wm_new late) ops)) /\
+  forall w ts, wm_current w <= wm_current (wm_advance w ts).
+Proof. intros late ops. split; [apply wm_monotone_l|apply wm_step_monotone]. Qed.
+
+Lemma wm_tracks_full : forall late,
+  (forall tss, wm_current (wm_run late tss) = zmax_list go_zero_time tss - late - 1) /\
+  (forall ops, map instant (wm_trace (wm_new late) ops) =
+               map (fun fw => zmax_list go_zero_time fw - late - 1) (wm_forwarded_before [] ops)).
+Proof. intro late. split; [apply wm_tracks_l|apply wm_trace_tracks_l]. Qed.
+
+Lemma stamp_after_forwarded_full : forall ops pre stamp post,
+  pipe_run (wm_new 0) ops = pre ++ SendW stamp :: post ->
+  stamp = pb_new (zmax_list go_zero_time (sent_ts pre) - 1) /\ 0 <= snd stamp < NS.
+Proof.
+  intros ops pre stamp post H. pose proof (stamp_after_forwarded_l _ _ _ _ H) as Hs.
+  split; [exact Hs|]. rewrite Hs. apply pb_new_normal.
+Qed.
+
+Lemma stamps_monotone_and_below_full : forall ops pre stamp post,
+  pipe_run (wm_new 0) ops = pre ++ SendW stamp :: post ->
+  (forall mid s2 post', post = mid ++ SendW s2 :: post' -> instant stamp <= instant s2) /\
+  (forall t, In t (sent_ts pre) -> (forall x, In x (sent_ts pre) -> x <= t) -> go_zero_time <= t -> instant stamp = t - 1).
+Proof.
+  intros ops pre stamp post H. split.
+  - intros mid s2 post' ->. eapply stamps_monotone_l. exact H.
+  - intros t Hin Hle Hz. eapply stamp_below_forwarded_l; eauto.
+Qed.
